@@ -121,10 +121,22 @@ def _evaluate(ctx, d, inp, record=True):
     wm = np.array(inp["mask"], dtype=np.float64).reshape(ms)
     tmask = None if inp["targetMask"] is None else np.array(inp["targetMask"], dtype=np.float64).reshape(ns)
     R = [r for r in S.grid_rotations(nd) if r[0] == perm and r[1] == flip][0][2]
+    # intensity scale of the target (the normalised scores must not care; the guards of the code are absolute thresholds)
+    tscale = float(inp.get("tscale", 1.0))
+    itarget = target                      # unscaled: decides which windows are exactly constant
+    target = target * tscale
     S.set_precision(double)
     try:
         dtype = np.float64 if double else np.float32
-        res, fp = S.run_scan(score, target, template, mask=wm, target_mask=tmask, rotations=R[None], pad=pad, order=order, dtype=dtype)
+        if inp.get("prelude") is not None:
+            # a session: another search with a different template of the same shape ran before, in the same (reused) workers
+            pre = np.array(inp["prelude"], dtype=np.float64).reshape(ms)
+            allr = np.stack([r[2] for r in S.grid_rotations(nd) if S.rot_ok_for_shape(r[0], ms)][:4])
+            S.run_scan(score, target, pre, mask=wm, target_mask=tmask, rotations=allr, pad=pad, order=order, dtype=dtype, n_jobs=2)
+            res, fp = S.run_scan(score, target, template, mask=wm, target_mask=tmask, rotations=np.stack([R, R]), pad=pad, order=order,
+                                 dtype=dtype, n_jobs=2)
+        else:
+            res, fp = S.run_scan(score, target, template, mask=wm, target_mask=tmask, rotations=R[None], pad=pad, order=order, dtype=dtype)
     finally:
         S.set_precision(False)
     sc = np.asarray(res[0], dtype=np.float64)
@@ -191,9 +203,9 @@ def _evaluate(ctx, d, inp, record=True):
         wm_eff, wR_eff = wm, wR
     # ---- guard-tie voxels: exact denominator vanishes / threshold ties
     if score in ("FLC",):
-        stable = S.window_var(target, wR_eff) > 1e-9
+        stable = S.window_var(itarget, wR_eff) > 1e-9
     elif score in ("FLCSphericalMask", "CORR", "CAM"):
-        stable = S.window_var(target, wm) > 1e-9
+        stable = S.window_var(itarget, wm) > 1e-9
     else:
         num, den, ov = _mcc_numpy(target, tmask, gR, wR_eff, 0.3, pad, fast, eps)
         stable = (den > 1e-6 * max(den.max(), 1e-30))
@@ -215,20 +227,20 @@ def _evaluate(ctx, d, inp, record=True):
     binary = bool(np.all((wm == 0) | (wm == 1))) and not smoothed
     if score in ("CORR", "CAM") and bool(np.all(wm == 1)):
         # CAM: the *standardised* target is what gets zero-extended
-        tsrc = (target - target.mean()) / target.std() if score == "CAM" else target
+        tsrc = (itarget - itarget.mean()) / itarget.std() if score == "CAM" else itarget
         tb, st2 = S.pearson_textbook(tsrc, gR, np.ones(ms))
         p2 = part & st2
         dt = float(np.max(np.abs(sc - tb)[p2])) if p2.any() else 0.0
         detail["max|impl-Pearson|"] = dt
         good &= dt <= tol
     if score == "FLC" and binary:
-        tb, st2 = S.pearson_textbook(target, gR, wR)
+        tb, st2 = S.pearson_textbook(itarget, gR, wR)
         p2 = part & st2
         dt = float(np.max(np.abs(sc - tb)[p2])) if p2.any() else 0.0
         detail["max|impl-maskedPearson|"] = dt
         good &= dt <= tol
     if score == "FLCSphericalMask" and binary:
-        tb, st2 = S.pearson_textbook(target, gR, wm)
+        tb, st2 = S.pearson_textbook(itarget, gR, wm)
         p2 = part & st2
         dt = float(np.max(np.abs(sc - tb)[p2])) if p2.any() else 0.0
         detail["max|impl-maskedPearson|"] = dt
@@ -284,7 +296,12 @@ def run(ctx):
         if score == "MCC" and mask_kind == "soft":
             mask_kind = "binary"
         inp, sig = _case(ctx, d, rng, nd, score, pad, double, order, mask_kind, quick)
+        if score in ("FLC", "FLCSphericalMask", "CORR", "CAM") and rng.random() < 0.35:
+            # small / large absolute intensities (far above the code's eps guards relative to the data, so the value is unchanged)
+            inp["tscale"] = float(rng.choice([1e-9, 1e-6, 1e3] if double else [1e-5, 1e-4, 1e3]))
+            sig = sig + (inp["tscale"],)
         _evaluate(ctx, d, inp)
+        ctx.count("target-scale:%g" % inp.get("tscale", 1.0))
         ctx.distinct(sig)
         ctx.count(f"score:{score}")
         ctx.count(f"ndim:{nd}")
@@ -296,6 +313,22 @@ def run(ctx):
         ctx.count("mask:" + mask_kind)
         if i < 3:
             ctx.sample({k: v for k, v in inp.items() if k not in ("target", "mask", "targetMask")})
+
+
+    # ---- sessions: consecutive searches with different templates of one shape, rotations spread over two (reused) workers
+    for i in range(ctx.budget(4, 30)):
+        score = S.SCORES[i % len(S.SCORES)]
+        if score == "MCC":
+            score = "CC"
+        nd = 2 if i % 3 else 3
+        inp, sig = _case(ctx, d, rng, nd, score, bool(i % 2), False, 3, "full", True)
+        pre = rng.integers(-4, 5, size=inp["ms"])
+        if pre.std() == 0:
+            pre.flat[0] += 1
+        inp["prelude"] = pre.reshape(-1).tolist()
+        _evaluate(ctx, d, inp)
+        ctx.distinct(sig + ("session",))
+        ctx.count("session:two-searches-two-workers")
 
 
 def search(ctx):
